@@ -531,8 +531,21 @@ impl Compress {
         dict: &mut SuffixDict,
         compressed: &mut Vec<u8>,
         packet: &[u8],
-        mut offset: usize,
+        offset: usize,
         base_offset: usize,
+    ) -> CompressedNameResult {
+        Self::copy_compressed_name_at(dict, compressed, packet, offset, base_offset + offset)
+    }
+
+    /// Compress a name starting at `offset` using the suffix dictionary `dict`.
+    /// `suffix_offset` is the location, in the packet being built, of the label
+    /// found at `offset`: this is what later pointers to it have to designate.
+    fn copy_compressed_name_at(
+        dict: &mut SuffixDict,
+        compressed: &mut Vec<u8>,
+        packet: &[u8],
+        mut offset: usize,
+        mut suffix_offset: usize,
     ) -> CompressedNameResult {
         let uncompressed_name_len = Compress::raw_name_len_after_decompression(packet, offset);
         let initial_compressed_len = compressed.len();
@@ -542,16 +555,15 @@ impl Compress {
             if label_len & 0xc0 == 0xc0 {
                 panic!("copy_compressed_name() called on an already compressed name");
             }
-            if let Some(ref_offset) =
-                dict.insert(&packet[offset..final_offset], base_offset + offset)
-            {
-                assert!(offset < 65536 >> 2); // Checked in dict.insert()
+            if let Some(ref_offset) = dict.insert(&packet[offset..final_offset], suffix_offset) {
+                assert!(ref_offset < 65536 >> 2); // Checked in dict.insert()
                 compressed.push((ref_offset >> 8) as u8 | 0xc0);
                 compressed.push((ref_offset & 0xff) as u8);
                 break;
             }
             let offset_next = offset + 1 + label_len;
             compressed.extend_from_slice(&packet[offset..offset_next]);
+            suffix_offset += 1 + label_len;
             offset = offset_next;
             if label_len == 0 {
                 break;
@@ -567,13 +579,16 @@ impl Compress {
     /// This function assumes that the input is trusted and uncompressed, and
     /// doesn't perform any checks. Returns the length of the name as well
     /// as the location right after the uncompressed name.
+    /// Suffixes are recorded at the location they get in `compressed`, so
+    /// that pointers emitted later designate them in the output.
     pub fn copy_compressed_name(
         dict: &mut SuffixDict,
         compressed: &mut Vec<u8>,
         packet: &[u8],
         offset: usize,
     ) -> CompressedNameResult {
-        Self::copy_compressed_name_with_base_offset(dict, compressed, packet, offset, 0)
+        let suffix_offset = compressed.len();
+        Self::copy_compressed_name_at(dict, compressed, packet, offset, suffix_offset)
     }
 }
 
